@@ -82,7 +82,7 @@ def rules_G(u, rep):
         "magic": "read#0 Eq MAGIC",
         "major": "read#1 Eq VERSION.0",
         "minor": "read#2 Le VERSION.1",
-        "usize": "read#3 as usize Eq %d" % usz,
+        "usize": "read#3 Eq %d" % usz,
         "type_hash": "read#4 Eq %s" % TH,
         "align_hash": "read#5 Eq %s" % AH,
     }
@@ -138,7 +138,7 @@ def rules_G(u, rep):
         "read#0 not in {MAGIC,MAGIC_REV}": ("Error::MagicCookieError", {"0": "read#0"}),
         "read#1 Ne VERSION.0": ("Error::MajorVersionMismatch", {"0": "read#1"}),
         "read#2 Gt VERSION.1": ("Error::MinorVersionMismatch", {"0": "read#2"}),
-        "read#3 as usize Ne %d" % usz: ("Error::UsizeSizeMismatch", {"0": "read#3 as usize"}),
+        "read#3 Ne %d" % usz: ("Error::UsizeSizeMismatch", {"0": "read#3"}),
         "read#4 Ne %s" % TH: ("Error::WrongTypeHash", hash_payload_t),
         "read#5 Ne %s" % AH: ("Error::WrongAlignHash", hash_payload_a),
     }
